@@ -52,18 +52,58 @@ Proof.
   - apply Forall_filter. exact Hi.
 Qed.
 
+(* the moments at which a run hashes something: only these can be the origin of an entry *)
+Fixpoint run_moments (s : cache * world) (h : list event) : list world :=
+  match h with
+  | [] => []
+  | ev :: h' => (match ev with EvRun _ _ _ => [snd s] | _ => [] end) ++ run_moments (step s ev) h'
+  end.
+
+Lemma run_moments_incl h : forall s, incl (run_moments s h) (moments s h).
+Proof.
+  induction h as [|ev h IH]; intros s w Hw; [destruct Hw|].
+  cbn [run_moments] in Hw. rewrite moments_cons. apply in_app_or in Hw. destruct Hw as [Hw|Hw].
+  - destruct ev; cbn [In] in Hw; try contradiction. destruct Hw as [<-|[]]. left. reflexivity.
+  - right. apply IH. exact Hw.
+Qed.
+
+Lemma run_moments_app h1 : forall s h2, incl (run_moments s h1) (run_moments s (h1 ++ h2)).
+Proof.
+  induction h1 as [|ev h1 IH]; intros s h2 w Hw; [destruct Hw|].
+  rewrite <- app_comm_cons. cbn [run_moments] in *. apply in_or_app. apply in_app_or in Hw.
+  destruct Hw as [Hw|Hw]; [left; exact Hw|right; apply IH; exact Hw].
+Qed.
+
+Lemma step_inv_run cs os s ev : Inv H T cs os (fst s) -> incl (run_moments s [ev]) os -> incl (confs [ev]) cs ->
+  Inv H T cs os (fst (step s ev)).
+Proof.
+  intros Hi Io Ic. destruct ev as [e|a tr p|keep]; cbn [CacheModel.step fst].
+  - exact Hi.
+  - apply run_cached_inv; auto.
+    + apply Io. left. reflexivity.
+    + apply Ic. left. reflexivity.
+  - apply Forall_filter. exact Hi.
+Qed.
+
+Lemma exec_inv_run cs os h : forall s, Inv H T cs os (fst s) -> incl (run_moments s h) os -> incl (confs h) cs ->
+  Inv H T cs os (fst (exec s h)).
+Proof.
+  induction h as [|ev h IH]; intros s Hi Io Ic; [exact Hi|].
+  cbn [CacheModel.exec]. cbn [run_moments] in Io.
+  apply IH.
+  - apply step_inv_run; auto.
+    + intros w Hw. apply Io. apply in_or_app. left. cbn [run_moments] in Hw. rewrite app_nil_r in Hw. exact Hw.
+    + intros x Hx. apply Ic. destruct ev; cbn [confs] in *; try contradiction.
+      destruct Hx as [<-|[]]. left. reflexivity.
+  - intros w Hw. apply Io. apply in_or_app. right. exact Hw.
+  - intros x Hx. apply Ic. destruct ev; cbn [confs]; auto. right. exact Hx.
+Qed.
+
 Lemma exec_inv cs ws h : forall s, Inv H T cs ws (fst s) -> incl (moments s h) ws -> incl (confs h) cs ->
   Inv H T cs ws (fst (exec s h)).
 Proof.
-  induction h as [|ev h IH]; intros s Hi Im Ic; [exact Hi|].
-  cbn [CacheModel.exec]. rewrite moments_cons in Im.
-  apply IH.
-  - apply step_inv; auto.
-    + apply Im. left. reflexivity.
-    + intros x Hx. apply Ic. destruct ev; cbn [confs] in *; try contradiction.
-      destruct Hx as [<-|[]]. left. reflexivity.
-  - intros w Hw. apply Im. right. exact Hw.
-  - intros x Hx. apply Ic. destruct ev; cbn [confs]; auto. right. exact Hx.
+  intros s Hi Im Ic. apply exec_inv_run; auto.
+  intros w Hw. apply Im. apply run_moments_incl. exact Hw.
 Qed.
 
 (* C12_entries_valid *)
@@ -72,11 +112,33 @@ Theorem entries_valid_reachable : forall (h : list event) (w0 : world),
   forall h1 h2, h = h1 ++ h2 ->
   entries_valid H T (confs h) (moments ([], w0) h) (fst (exec ([], w0) h1)).
 Proof.
-  intros h w0 Hs Ht h1 h2 ->. apply origin_valid; auto.
+  intros h w0 Hs Ht h1 h2 ->. apply (origin_valid H T _ (moments ([], w0) (h1 ++ h2))); auto.
   apply exec_inv.
   - constructor.
   - apply moments_app_incl.
   - rewrite confs_app. apply incl_appl. apply incl_refl.
+Qed.
+
+(* the sharp form: only collisions between a moment at which some run hashed and the present matter *)
+Theorem same_result_hashed_moments : forall (h : list event) (w0 : world) (a : N) (tr : option tconf) (R : Type) (p : prog R),
+  stamp_det2 (run_moments ([], w0) h) [snd (exec ([], w0) h)] ->
+  tree_faithful T ((a, tr) :: confs h) -> nofail p ->
+  fst (run_cached H T a tr p (fst (exec ([], w0) h)) (snd (exec ([], w0) h))) = run_plain H T a tr p (snd (exec ([], w0) h)).
+Proof.
+  intros h w0 a tr R p Hs Ht Hn.
+  set (cur := snd (exec ([], w0) h)) in *.
+  apply (run_cached_same H T ((a, tr) :: confs h) (cur :: run_moments ([], w0) h) [cur]); auto.
+  - intros w1 w2 id i1 i2 I1 I2 E1 E2 Em El. destruct I2 as [<-|[]].
+    destruct I1 as [<-|I1].
+    + rewrite E1 in E2. injection E2 as <-. reflexivity.
+    + apply (Hs w1 cur id i1 i2); auto. left. reflexivity.
+  - apply exec_inv_run.
+    + constructor.
+    + apply incl_tl. apply incl_refl.
+    + apply incl_tl. apply incl_refl.
+  - left. reflexivity.
+  - left. reflexivity.
+  - left. reflexivity.
 Qed.
 
 (* C12_same_result *)
@@ -84,14 +146,11 @@ Theorem same_result : forall (h : list event) (w0 : world) (a : N) (tr : option 
   stamp_determines (moments ([], w0) h) -> tree_faithful T ((a, tr) :: confs h) -> nofail p ->
   fst (run_cached H T a tr p (fst (exec ([], w0) h)) (snd (exec ([], w0) h))) = run_plain H T a tr p (snd (exec ([], w0) h)).
 Proof.
-  intros h w0 a tr R p Hs Ht Hn.
-  apply (run_cached_same H T ((a, tr) :: confs h) (moments ([], w0) h)); auto.
-  - apply exec_inv.
-    + constructor.
-    + apply incl_refl.
-    + apply incl_tl. apply incl_refl.
+  intros h w0 a tr R p Hs Ht Hn. apply same_result_hashed_moments; auto.
+  intros w1 w2 id i1 i2 I1 I2. destruct I2 as [<-|[]].
+  apply (Hs w1 (snd (exec ([], w0) h)) id i1 i2).
+  - apply run_moments_incl. exact I1.
   - apply exec_last_moment.
-  - left. reflexivity.
 Qed.
 
 (* the same with `tree_faithful` discharged: command strings are free of NUL bytes *)
@@ -105,6 +164,12 @@ Theorem same_result_nul_free : forall (h : list event) (w0 : world) (a : N) (tr 
   stamp_determines (moments ([], w0) h) -> nul_free ((a, tr) :: confs h) -> nofail p ->
   fst (run_cached H T a tr p (fst (exec ([], w0) h)) (snd (exec ([], w0) h))) = run_plain H T a tr p (snd (exec ([], w0) h)).
 Proof. intros h w0 a tr R p Hs Hn Hnf. apply same_result; auto. apply tree_faithful_nul_free. exact Hn. Qed.
+
+Theorem same_result_hashed_moments_nul_free : forall (h : list event) (w0 : world) (a : N) (tr : option tconf) (R : Type) (p : prog R),
+  stamp_det2 (run_moments ([], w0) h) [snd (exec ([], w0) h)] ->
+  nul_free ((a, tr) :: confs h) -> nofail p ->
+  fst (run_cached H T a tr p (fst (exec ([], w0) h)) (snd (exec ([], w0) h))) = run_plain H T a tr p (snd (exec ([], w0) h)).
+Proof. intros h w0 a tr R p Hs Hn Hnf. apply same_result_hashed_moments; auto. apply tree_faithful_nul_free. exact Hn. Qed.
 
 (* with the mtime rounded DOWN to ms (the usual reading of "millisecond resolution") *)
 Theorem same_result_rounded_down : forall (h : list event) (w0 : world) (a : N) (tr : option tconf) (R : Type) (p : prog R),
